@@ -27,7 +27,7 @@ def space(tier):
 
 def funcs(coord):
     import scikit_tt.data_driven.transform as tdt
-    return [tdt.Identity(coord), tdt.Monomial(coord, 2, prefactor=0.5), tdt.Sin(coord, 1.0), tdt.Cos(coord, 0.5), tdt.GaussFunction(coord, 0.2, 1.0),
+    return [tdt.Identity(coord), tdt.Monomial(coord, 2, prefactor=0.5), tdt.Sin(coord, 1.0), tdt.Cos(coord, 0.5), tdt.GaussFunction(coord, 0.2, 0.7),
             tdt.ConstantFunction(coord)]
 
 
